@@ -451,6 +451,9 @@ func runC08(c *Ctx) {
 	o = c.Obl("R5", fname(r.Close), "close(notify) happens once: under the mutex, on the !closed edge, with closed=true in the same critical section; every send on it is under the mutex on the !closed edge", 1)
 	var closes []ssa.Instruction
 	for _, f := range p.Funcs {
+		if isPrivateHelper(f) && !unitExclude[f] {
+			continue // analysed as part of the functions that call it
+		}
 		if pkgOf(f) != "packetio" {
 			continue
 		}
@@ -530,59 +533,81 @@ func runC08(c *Ctx) {
 	if len(decs) == 0 {
 		o.Undecide("count-- not found in Read")
 	}
-	// region: from the true edge of the first emptiness test (data present) to the unlock
-	var firstTest *ssa.If
-	for _, in := range findU(r.Read, isEmptyTest) {
-		iff := in.(*ssa.If)
-		if firstTest == nil || domU(iff, firstTest) {
-			firstTest = iff
-		}
+	// path by path (one loop iteration, helpers inlined): on a path that takes a packet (count--), between the
+	// emptiness test that found data and the unlock that follows, the token is re-posted, unless the path has
+	// found the buffer closed, or empty again after the head was advanced
+	if !readPathsOK {
+		o.Undecide("the paths of Read could not be enumerated")
 	}
-	if firstTest == nil {
-		o.Undecide("emptiness test (head vs tail) not found in Read")
-	} else {
-		cm, _ := normCmp(firstTest.Cond, true)
-		dataBlk := firstTest.Block().Succs[0]
-		if cm.Op == token.EQL {
-			dataBlk = firstTest.Block().Succs[1]
-		}
-		o.Site(firstTest.Pos(), "packet-taking region starts at block %d", dataBlk.Index)
-		isUnlock := func(in ssa.Instruction) bool { return r.isLockCall(in, "unlock") }
-		// walk with edge stops: edges asserting head==tail (tested after the head was advanced) or closed==true
-		headStores := findU(r.Read, func(in ssa.Instruction) bool { return r.isStoreTo(in, r.head) })
-		reached := reachEdges(blockStart(dataBlk), func(in ssa.Instruction) bool { return isUnlock(in) || mustDo(p, isNotifySend)(in) },
-			func(from, to *ssa.BasicBlock) bool {
-				iff, ok := from.Instrs[len(from.Instrs)-1].(*ssa.If)
-				if !ok {
-					return false
-				}
-				val := from.Succs[0] == to
-				if from.Succs[0] == from.Succs[1] {
-					return false
-				}
-				ft := fact{Cond: iff.Cond, Val: val, If: iff}
-				if closedFact(ft, true) {
-					return true
-				}
-				if emptyFact(ft, true) && iff != firstTest {
-					// must be evaluated after the head advance
-					for _, hs := range headStores {
-						if domU(hs, iff) && dataBlk.Dominates(hs.Block()) {
-							return true
-						}
-					}
-				}
-				return false
-			})
-		for in := range reached {
-			if isUnlock(in) {
-				o.Site(in.Pos(), "unlock reached")
-				o.Fail(in.Pos(), "Read can take a packet and release the lock without re-posting the wake-up token although more packets may be buffered: a second parked reader stays asleep with a packet buffered")
+	isUnlock := func(in ssa.Instruction) bool { return r.isLockCall(in, "unlock") }
+	isDecIn := func(in ssa.Instruction) bool { d, ok := r.fieldDelta(in, r.count); return ok && d == -1 }
+	reportedU := map[ssa.Instruction]bool{}
+	nTake := 0
+	for pi := range readPaths {
+		pth := &readPaths[pi]
+		hasDec := false
+		for _, in := range pth.Instrs {
+			if isDecIn(in) {
+				hasDec = true
 			}
 		}
-		for _, s := range rootEvents(p, r.Read, isNotifySend) {
-			o.Site(s.Pos(), "baton send")
+		if !hasDec {
+			continue
 		}
+		nTake++
+		// walk the path
+		ci := 0
+		started, headAdvanced, excused, posted := false, false, false, false
+		var unlock ssa.Instruction
+		for _, in := range pth.Instrs {
+			if iff, ok := in.(*ssa.If); ok {
+				var ft fact
+				if ci < len(pth.Conds) {
+					ft = pth.Conds[ci]
+				}
+				ci++
+				if ft.If != iff {
+					continue
+				}
+				if !started {
+					if emptyFact(ft, false) {
+						started = true // data present
+					}
+					continue
+				}
+				if closedFact(ft, true) {
+					excused = true
+				}
+				if emptyFact(ft, true) && headAdvanced {
+					excused = true
+				}
+				continue
+			}
+			if !started {
+				continue
+			}
+			if r.isStoreTo(in, r.head) {
+				headAdvanced = true
+			}
+			if isNotifySend(in) {
+				posted = true
+			}
+			if isUnlock(in) {
+				unlock = in
+				break
+			}
+		}
+		if unlock != nil && !posted && !excused && !reportedU[unlock] {
+			reportedU[unlock] = true
+			o.Site(unlock.Pos(), "unlock reached")
+			o.Fail(unlock.Pos(), "Read can take a packet and release the lock without re-posting the wake-up token although more packets may be buffered: a second parked reader stays asleep with a packet buffered")
+		}
+	}
+	if nTake == 0 && len(decs) > 0 {
+		o.Undecide("no path of Read takes a packet")
+	}
+	for _, s := range findU(r.Read, isNotifySend) {
+		o.Site(s.Pos(), "baton send")
 	}
 
 	// R7: deadline tests
